@@ -27,10 +27,12 @@ META = dict(
                 'node had all its targets loaded before it, that the loop ends with exactly the ids that are loadable at all (a finite reference chain: '
                 'loaded_iff_loadable), hence independently of definition order (retry_perm), and that self- and mutually referential nodes are never loaded but '
                 'reported; that id lookup returns the carrier of the id or a broken-reference error, never another object; that references written from current ids '
-                'resolve to the same object; and, on the AST-derived table of this run, that every cross-library look-up targets a library loaded earlier (deps_precede).'),
-    level_note=('Trusted: Lean kernel + standard axioms; Pyc/Model/Refs.lean; translators/load_order.py (which loader modules serve which library); the generators. '
+                'resolve to the same object; that the loader\'s repair for textures naming an image makes up one sampler per image whatever properties name it in '
+                'whatever order, that this sampler is the effect parameter carrying the id and that no id is carried by two parameters (invariant over scope, '
+                'parameter list and maps); and, on the AST-derived table of this run, that every cross-library look-up targets a library loaded earlier (deps_precede).'),
+    level_note=('Trusted: Lean kernel + standard axioms; Pyc/Model/Refs.lean; Pyc/Model/DirectTex.lean (made-up ids kept apart by constructor); translators/load_order.py (which loader modules serve which library); the generators. '
                 'Unique ids are a hypothesis of written_refs_resolve and of the cycle theorems.'),
-    technique='Lean 4 invariant proof of the retry loop (closure + fixpoint) with an order-independent characterisation + AST-derived load-order table + correspondence on random reference graphs + identity/permutation/dangling oracles',
+    technique='Lean 4 invariant proof of the retry loop (closure + fixpoint) with an order-independent characterisation + AST-derived load-order table + invariant proof of the made-up-sampler repair + correspondence on random reference graphs and image-named textures + identity/permutation/dangling oracles',
 )
 NS = docgen.NS141
 
